@@ -1,6 +1,7 @@
 package main
 
 import (
+	"fmt"
 	"go/constant"
 	"go/token"
 	"go/types"
@@ -48,19 +49,26 @@ type c10prover struct {
 	roots   map[*ssa.Function]bool // entry points fed with hostile bytes: nothing is assumed about their parameters
 	memo    map[c10memoKey]*c10dbm
 	phiBusy map[*ssa.Phi]bool
+	// memory (c10_mem.go)
+	loadBusy  map[*ssa.UnOp]bool
+	mayWrite  map[string]bool
+	canonMemo map[*ssa.UnOp]ssa.Value
+	canonBusy map[*ssa.UnOp]bool
 }
 
 type c10memoKey struct {
 	b     *ssa.BasicBlock
 	depth int
+	asm   string
 }
 
 func newC10Prover(roots map[*ssa.Function]bool) *c10prover {
-	return &c10prover{roots: roots, memo: map[c10memoKey]*c10dbm{}, phiBusy: map[*ssa.Phi]bool{}}
+	return &c10prover{roots: roots, memo: map[c10memoKey]*c10dbm{}, phiBusy: map[*ssa.Phi]bool{}, loadBusy: map[*ssa.UnOp]bool{}, mayWrite: map[string]bool{}, canonMemo: map[*ssa.UnOp]ssa.Value{}, canonBusy: map[*ssa.UnOp]bool{}}
 }
 
 type c10dbm struct {
 	px       *c10prover
+	block    *ssa.BasicBlock
 	depth    int
 	idx      map[c10term]int
 	terms    []c10term
@@ -71,7 +79,21 @@ type c10dbm struct {
 	imported map[*ssa.Function]bool
 	added    map[[2]int]int64 // tightest edge added so far per (u,v): keeps refinement rounds finite
 	settling bool
+	asm      []c10asm // what is assumed beyond the branch facts (results of an inner call on the path a caller is on)
 }
+
+// c10asm: an assumption about a value at a return of a helper, made because the caller is on the edge where the
+// corresponding result is nil (an error), true or false (a success flag).
+type c10asm struct {
+	v    ssa.Value
+	kind int
+}
+
+const (
+	c10isNil = iota
+	c10isTrue
+	c10isFalse
+)
 
 type c10neq struct {
 	x int
@@ -79,15 +101,27 @@ type c10neq struct {
 }
 
 // at returns the constraint system holding at block b.
-func (px *c10prover) at(b *ssa.BasicBlock, depth int) *c10dbm {
-	key := c10memoKey{b, depth}
+func (px *c10prover) at(b *ssa.BasicBlock, depth int) *c10dbm { return px.atAssume(b, depth, nil) }
+
+// atAssume: the system at b under additional assumptions about values (see c10asm).
+func (px *c10prover) atAssume(b *ssa.BasicBlock, depth int, asm []c10asm) *c10dbm {
+	key := c10memoKey{b, depth, ""}
+	for _, a := range asm {
+		key.asm += fmt.Sprintf("%p/%d;", a.v, a.kind)
+	}
 	if d := px.memo[key]; d != nil {
 		return d
 	}
-	d := &c10dbm{px: px, depth: depth, idx: map[c10term]int{}, imported: map[*ssa.Function]bool{}, added: map[[2]int]int64{}}
+	d := &c10dbm{px: px, block: b, depth: depth, idx: map[c10term]int{}, imported: map[*ssa.Function]bool{}, added: map[[2]int]int64{}, asm: asm}
 	d.terms = append(d.terms, c10term{}) // node 0 = the constant zero
 	px.memo[key] = d
 	d.facts = factsAt(b)
+	// an assumed truth value is a branch fact like any other (and is unfolded like one: ok := err == nil)
+	for _, a := range asm {
+		if a.kind == c10isTrue || a.kind == c10isFalse {
+			d.facts = appendCondFacts(d.facts, a.v, a.kind == c10isTrue, 0)
+		}
+	}
 	for _, f := range d.facts {
 		d.assume(f)
 	}
@@ -241,6 +275,8 @@ func (d *c10dbm) define(t c10term, i int) {
 			d.importResult(t, i)
 		case *ssa.Phi:
 			d.importPhi(t, x, i)
+		case *ssa.UnOp:
+			d.importLoad(t, x, i)
 		}
 		return
 	}
@@ -264,6 +300,7 @@ func (d *c10dbm) define(t c10term, i int) {
 		switch x.Op {
 		case token.ADD, token.SUB, token.MUL, token.QUO, token.REM, token.SHL, token.SHR, token.OR, token.AND, token.XOR, token.AND_NOT:
 			d.pending = append(d.pending, i)
+			d.congruent(x, i)
 		}
 	case *ssa.Convert:
 		if !isIntType(x.X.Type()) {
@@ -298,6 +335,46 @@ func (d *c10dbm) define(t c10term, i int) {
 		d.importResult(t, i)
 	case *ssa.Phi:
 		d.importPhi(t, x, i)
+	case *ssa.UnOp:
+		if x.Op == token.MUL {
+			d.importLoad(t, x, i)
+		}
+	}
+}
+
+// congruent: the same operation on provably equal operands yields the same value (`c.off+n` written once in the test
+// and once in the slice expression; go/ssa does not share them, and with operands loaded from memory they are not even
+// the same SSA operands). Operands are equal when they are the same term or the system already holds a - b = 0.
+func (d *c10dbm) congruent(x *ssa.BinOp, i int) {
+	same := func(a, b ssa.Value) bool {
+		ta, tb := c10termOf(a), c10termOf(b)
+		if ta == tb {
+			return true
+		}
+		if !isIntType(a.Type()) || !isIntType(b.Type()) {
+			return false
+		}
+		na, nb := d.node(ta), d.node(tb)
+		if na == nb {
+			return true
+		}
+		u1, ok1 := d.rawUpper(na, nb)
+		u2, ok2 := d.rawUpper(nb, na)
+		return ok1 && ok2 && u1 == 0 && u2 == 0
+	}
+	for j := 1; j < len(d.terms); j++ {
+		o := d.terms[j]
+		if j == i || o.isLen {
+			continue
+		}
+		y, ok := o.v.(*ssa.BinOp)
+		if !ok || y == x || y.Op != x.Op || !types.Identical(y.Type(), x.Type()) || !types.Identical(y.X.Type(), x.X.Type()) {
+			continue
+		}
+		if same(y.X, x.X) && same(y.Y, x.Y) {
+			d.eq(i, j, 0)
+			return
+		}
 	}
 }
 
@@ -667,6 +744,23 @@ func (d *c10dbm) refineSliceLen(i int, s *ssa.Slice) {
 		return
 	}
 	lo := d.node(c10termOf(s.Low))
+	// x[off : off+n] has length n: the sum did not wrap (both operands bounded, the result fits its type)
+	if add, ok := s.High.(*ssa.BinOp); ok && add.Op == token.ADD {
+		for k, op := range []ssa.Value{add.X, add.Y} {
+			other := add.Y
+			if k == 1 {
+				other = add.X
+			}
+			oi, ni := d.node(c10termOf(op)), d.node(c10termOf(other))
+			u1, ok1 := d.rawUpper(oi, lo)
+			u2, ok2 := d.rawUpper(lo, oi)
+			ro, rn := d.rng(oi), d.rng(ni)
+			if ok1 && ok2 && u1 == 0 && u2 == 0 && ro.both() && rn.both() && c10fits(add.Type(), ro.lo+rn.lo, ro.hi+rn.hi) {
+				d.eq(i, ni, 0)
+				break
+			}
+		}
+	}
 	r := d.rng(lo)
 	if r.okLo {
 		d.le(i, hi, -r.lo) // len(s) <= hi' - min(lo)
@@ -806,8 +900,120 @@ func (d *c10dbm) importParams(f *ssa.Function) {
 
 // ---- results of helpers ------------------------------------------------------------------------------------------------
 
+// c10sameRes: v is result k of call (the call itself when it has a single result).
+func c10sameRes(v ssa.Value, call *ssa.Call, k int) bool {
+	if e, ok := v.(*ssa.Extract); ok {
+		return e.Tuple == ssa.Value(call) && e.Index == k
+	}
+	return v == ssa.Value(call) && k == 0 && call.Call.Signature().Results().Len() == 1
+}
+
+// knows: the branch facts or the assumptions of this system say that v is nil / true / false.
+func (d *c10dbm) knows(same func(ssa.Value) bool, kind int) bool {
+	for _, a := range d.asm {
+		if a.kind == kind && same(a.v) {
+			return true
+		}
+	}
+	for _, f := range d.facts {
+		switch kind {
+		case c10isNil:
+			if nn, ok := nilFact(f, same); ok && !nn {
+				return true
+			}
+		case c10isTrue:
+			if f.Truth && same(f.Cond) {
+				return true
+			}
+		case c10isFalse:
+			if !f.Truth && same(f.Cond) {
+				return true
+			}
+		}
+	}
+	return false
+}
+
+// c10known: what a caller knows about the OTHER results of a call (error nil, flag true/false).
+type c10known struct {
+	k    int
+	kind int
+}
+
+func (d *c10dbm) knownResults(call *ssa.Call, except int) []c10known {
+	res := call.Call.Signature().Results()
+	var out []c10known
+	for k := 0; k < res.Len(); k++ {
+		if k == except {
+			continue
+		}
+		kk := k
+		same := func(v ssa.Value) bool { return c10sameRes(v, call, kk) }
+		switch {
+		case typeStr(res.At(k).Type()) == "error":
+			if d.knows(same, c10isNil) {
+				out = append(out, c10known{k, c10isNil})
+			}
+		case c10isBool(res.At(k).Type()):
+			if d.knows(same, c10isTrue) {
+				out = append(out, c10known{k, c10isTrue})
+			} else if d.knows(same, c10isFalse) {
+				out = append(out, c10known{k, c10isFalse})
+			}
+		}
+	}
+	return out
+}
+
+func c10isBool(t types.Type) bool {
+	b, ok := t.Underlying().(*types.Basic)
+	return ok && b.Kind() == types.Bool
+}
+
+// c10returnExcluded: the return r cannot be the one taken given what the caller knows about the results.
+func c10returnExcluded(r *ssa.Return, kn []c10known) bool {
+	for _, q := range kn {
+		if q.k >= len(r.Results) {
+			continue
+		}
+		v := r.Results[q.k]
+		switch q.kind {
+		case c10isNil:
+			if c10certainlyNonNil(v, r.Block()) {
+				return true
+			}
+		case c10isTrue:
+			if b, ok := constBool(v); ok && !b {
+				return true
+			}
+		case c10isFalse:
+			if b, ok := constBool(v); ok && b {
+				return true
+			}
+		}
+	}
+	return false
+}
+
+// c10returnAsm: the caller's knowledge, restated about the values returned at r.
+func c10returnAsm(r *ssa.Return, kn []c10known) []c10asm {
+	var out []c10asm
+	for _, q := range kn {
+		if q.k < len(r.Results) {
+			if _, isK := r.Results[q.k].(*ssa.Const); !isK {
+				out = append(out, c10asm{r.Results[q.k], q.kind})
+			}
+		}
+	}
+	return out
+}
+
 // importResult bounds the (length of the) result of a call of a repository function by what holds at each of its
-// returns. A return whose error result is certainly non-nil is left out when the caller is on the err == nil edge.
+// returns: constant bounds, and bounds relative to the function's parameters (len(result) - n = 0 for a helper that
+// returns b[:n]), restated about the arguments of this call. Returns that cannot be the one taken given what the
+// caller knows (error certainly non-nil while the caller is on the err == nil edge, flag constant false while the caller
+// is on the ok edge) are left out; at the others that knowledge is assumed about the returned values, so that a helper
+// that forwards the results of an inner call is seen through.
 func (d *c10dbm) importResult(t c10term, i int) {
 	var call *ssa.Call
 	idx := 0
@@ -821,60 +1027,86 @@ func (d *c10dbm) importResult(t c10term, i int) {
 	if call == nil || d.depth >= c10MaxDepth {
 		return
 	}
+	// the one library contract the handler relies on: (*bufio.Reader).Peek(n) returns exactly n bytes when its error is nil
+	if t.isLen && idx == 0 && !call.Call.IsInvoke() && calleeName(&call.Call) == "(*bufio.Reader).Peek" && len(call.Call.Args) == 2 {
+		if d.knows(func(v ssa.Value) bool { return c10sameRes(v, call, 1) }, c10isNil) {
+			d.eq(i, d.node(c10termOf(call.Call.Args[1])), 0)
+		}
+		return
+	}
 	g := call.Call.StaticCallee()
 	if g == nil || !isRepoFn(g) || len(g.Blocks) == 0 || g == call.Parent() {
 		return
 	}
-	res := g.Signature.Results()
-	errIdx := -1
-	for k := 0; k < res.Len(); k++ {
-		if typeStr(res.At(k).Type()) == "error" {
-			errIdx = k
+	kn := d.knownResults(call, idx)
+	// parameter terms of g and the corresponding argument terms of this call (zero first)
+	pts := []c10term{{}}
+	ats := []c10term{{}}
+	for k, p := range g.Params {
+		if k >= len(call.Call.Args) {
+			break
+		}
+		switch {
+		case isIntType(p.Type()):
+			pts = append(pts, c10val(p))
+			ats = append(ats, c10termOf(call.Call.Args[k]))
+		case c10hasLen(p.Type()):
+			pts = append(pts, c10len(p))
+			ats = append(ats, c10len(call.Call.Args[k]))
 		}
 	}
-	callerNil := false
-	if errIdx >= 0 && errIdx != idx {
-		for _, f := range d.facts {
-			nn, ok := nilFact(f, func(o ssa.Value) bool {
-				e, isE := o.(*ssa.Extract)
-				return isE && e.Tuple == ssa.Value(call) && e.Index == errIdx
-			})
-			if ok && !nn {
-				callerNil = true
-			}
-		}
+	if len(pts) > 6 {
+		pts, ats = pts[:6], ats[:6]
 	}
-	lo, hi := c10Inf, int64(math.MinInt64)
-	okLo, okHi, n := true, true, 0
+	up := make([]int64, len(pts)) // result - param <= up
+	dn := make([]int64, len(pts)) // param - result <= dn
+	okUp := make([]bool, len(pts))
+	okDn := make([]bool, len(pts))
+	for k := range pts {
+		up[k], dn[k], okUp[k], okDn[k] = math.MinInt64, math.MinInt64, true, true
+	}
+	n := 0
 	eachInstr(g, func(in ssa.Instruction) {
 		r, ok := in.(*ssa.Return)
-		if !ok || idx >= len(r.Results) {
-			return
-		}
-		if callerNil && c10certainlyNonNil(r.Results[errIdx], r.Block()) {
+		if !ok || idx >= len(r.Results) || c10returnExcluded(r, kn) {
 			return
 		}
 		n++
-		rd := d.px.at(r.Block(), d.depth+1)
+		rd := d.px.atAssume(r.Block(), d.depth+1, c10returnAsm(r, kn))
 		var rt c10term
 		if t.isLen {
 			rt = c10len(r.Results[idx])
 		} else {
 			rt = c10termOf(r.Results[idx])
 		}
-		l, ok1 := rd.lower(rt)
-		u, ok2 := rd.upper(rt, c10term{})
-		okLo, okHi = okLo && ok1, okHi && ok2
-		lo, hi = min(lo, l), max(hi, u)
+		for k, p := range pts {
+			if okUp[k] {
+				if u, ok := rd.upper(rt, p); ok {
+					up[k] = max(up[k], u)
+				} else {
+					okUp[k] = false
+				}
+			}
+			if okDn[k] {
+				if u, ok := rd.upper(p, rt); ok {
+					dn[k] = max(dn[k], u)
+				} else {
+					okDn[k] = false
+				}
+			}
+		}
 	})
 	if n == 0 {
 		return
 	}
-	if okLo {
-		d.le(0, i, -lo)
-	}
-	if okHi {
-		d.le(i, 0, hi)
+	for k := range pts {
+		a := d.nodeOrZero(ats[k])
+		if okUp[k] {
+			d.le(i, a, up[k])
+		}
+		if okDn[k] {
+			d.le(a, i, dn[k])
+		}
 	}
 }
 
